@@ -245,7 +245,6 @@ func scaleUnits(thorough bool) []unit {
 			}
 		}
 	}
-	us = append(us, batchEdgeUnits(thorough)...)
 	return us
 }
 
@@ -294,10 +293,17 @@ func batchEdgeUnits(thorough bool) []unit {
 					a = append(a, z+".1")
 					b = append(b, z+".2")
 					for _, op := range []string{"M", "FIN", "MM"} {
-						// quick tier (each history moves ~18 MiB): X wholly in the first part x {short:500us, short:1500us, list} x {M, FIN} at
-						// every edge position, plus tail-in-second-part and MM at the "inside" position with short:500us
-						if !thorough && !(!tailB && sm.thresh != 2_500_000 && op != "MM") && !(j == j0 && sm.thresh == 500_000 && (tailB != (op == "MM"))) {
-							continue
+						// quick tier (each history moves ~18 MiB; 8 histories): hot merge with short:500us at all three edge positions; at the
+						// "inside" position also short:1500us and list (M), and short:500us with FIN, MM and tail-in-second-part (M)
+						if !thorough {
+							base := !tailB && op == "M"
+							switch {
+							case base && sm.thresh == 500_000:
+							case base && j == j0 && sm.thresh != 2_500_000:
+							case j == j0 && sm.thresh == 500_000 && ((tailB && op == "M") || (!tailB && op != "M")):
+							default:
+								continue
+							}
 						}
 						var ops []Op
 						switch op {
